@@ -289,8 +289,20 @@ def _visible_from_main(case, fi):
 def inj_struct_cycle(case, rng):
     c = copy.deepcopy(case)
     fi = _pick_file(c, rng)
-    if rng.random() < 0.4:
+    r = rng.random()
+    if r < 0.3:
         nodes = [{"k": "struct", "name": "ZCyc", "fields": [{"type": "uint64", "count": 1, "name": "a"}, {"type": "ZCyc", "count": 1, "name": "b"}]}]
+    elif r < 0.65:
+        # a cycle that is reachable from, but does not contain, the first struct (rho shape),
+        # with a tail of random length and a loop of length 1..3, declared in random order
+        tail, loop = rng.randint(1, 3), rng.randint(1, 3)
+        names = [f"ZT{i}" for i in range(tail)] + [f"ZL{i}" for i in range(loop)]
+        nodes = []
+        for i, nm in enumerate(names):
+            nxt = names[i + 1] if i + 1 < len(names) else names[tail]
+            nodes.append({"k": "struct", "name": nm, "fields": [{"type": "uint64", "count": 1, "name": "a"}, {"type": nxt, "count": 1, "name": "n"}]})
+        if rng.random() < 0.5:
+            rng.shuffle(nodes)
     else:
         nodes = [{"k": "struct", "name": "ZCyc", "fields": [{"type": "ZCyc2", "count": 1, "name": "a"}]},
                  {"k": "struct", "name": "ZCyc2", "fields": [{"type": "ZCyc", "count": 1, "name": "a"}]}]
